@@ -261,7 +261,13 @@ class Check(PropertyCheck):
     coq_header = A.COQ_HEADER + 'From Furax Require Import Model.Wf Model.Adjoint.\n'
     shard = 60
     workers = 8
-    partial = None
+    partial = (
+        'the matrix form "mat(e.T) = mat(e)^T" of the property is not a separate theorem: it is transpose_adjoint at the basis vectors '
+        '(it needs totality of the denotation on inputs of the declared structure, which is not proved for abstract leaves); it is checked '
+        'by the oracle on every case.  transpose_involutive is proved for wrappers as `.T` creates them (guard `canonical`) under the named '
+        'assumption that re-created objects act through their data (`oid_facts`); for the generic lazy TransposeOperator of opaque operators '
+        'adjointness is the trusted behaviour of jax.linear_transpose (`af_linear_transpose`), validated numerically here'
+    )
     trusted = [
         'the adjointness theorem quantifies over arbitrary leaf semantics satisfying Model/Adjoint.v `adj_facts`: the operator that '
         'transpose() returns for a LEAF acts as the adjoint of the leaf.  For the generic lazy TransposeOperator this is what '
@@ -311,26 +317,21 @@ class Check(PropertyCheck):
                 ch.pop()
 
         for n in names:
-            extend([n], 2 if quick else 3)
-        if quick:
-            # a sample of 3-chains as well
-            c3 = []
-            for ch in chains:
-                for n in by_out.get(t[ch[-1]][0], []):
-                    c3.append(ch + [n])
-            rng.shuffle(c3)
-            chains3 = c3[:150]
-        else:
-            chains3 = []
+            extend([n], 2)
+        c3 = []
+        for ch in chains:
+            for n in by_out.get(t[ch[-1]][0], []):
+                c3.append(ch + [n])
+        rng.shuffle(c3)
+        chains3 = c3[: 150 if quick else 800]
         rng.shuffle(chains)
-        self.stats['chains_available'] = len(chains)
-        allch = chains + chains3
-        for ch in allch:
+        self.stats['chains_available'] = {'len2': len(chains), 'len3': len(c3)}
+        for ch in chains + chains3:
             by_type.setdefault((t[ch[-1]][0], t[ch[0]][1]), []).append(ch)
         for n in names:
             by_type.setdefault(t[n], []).append([n])
-        budget = 260 if quick else 6000
-        picked = chains[:budget] + chains3
+        picked2 = chains[:260] if quick else chains  # thorough: every type-compatible pair
+        picked = picked2 + chains3
         seen = set()
 
         def add(ch, ctx):
@@ -352,7 +353,8 @@ class Check(PropertyCheck):
         for ch in picked:
             add(ch, 'comp')
         for i, ch in enumerate(picked):
-            for ctx in (CONTEXTS[1:] if not quick else [CONTEXTS[1 + (i % (len(CONTEXTS) - 1))]]):
+            every = not quick and len(ch) == 3
+            for ctx in (CONTEXTS[1:] if every else [CONTEXTS[1 + (i % (len(CONTEXTS) - 1))]]):
                 add(ch, ctx)
         # every single operand in every container context (thorough) / two contexts (quick)
         for i, n in enumerate(names):
@@ -387,8 +389,8 @@ class Check(PropertyCheck):
             'every operand of the ~160-operand alphabet (shared alphabet + einsum subscripts incl. repeated letters, move-axis with '
             'negative/multiple axes and pytrees, ravel/reshape variants, index with repeated/rank-2/int/strided/mask entries, pack, '
             'diagonal family, batched Toeplitz, Toast observation matrix, explicit lazy transposes of primitives and composites, '
-            'block operators over list/tuple/dict/nested containers, sums over containers), all type-compatible chains of length 2 '
-            '(3: sampled in quick, all in thorough), each placed in composition / @ / nested composition / sum / block row, column, '
+            'block operators over list/tuple/dict/nested containers, sums over containers), type-compatible chains of length 2 '
+            '(all in thorough, 260 in quick) and 3 (sampled), each placed in composition / @ / nested composition / sum / block row, column, '
             'diagonal over several containers / under an explicit lazy TransposeOperator.  Non-trivial: e.T is not the default lazy wrapper.'
         )
 
